@@ -130,6 +130,11 @@ func TestPacingInterceptor(t *testing.T) {
 		rate := rapid.SampledFrom([]int{50_000, 300_000, 1_000_000, 5_000_000, 50_000_000, 1_000_000_000}).Draw(t, "rate")
 		interval := time.Duration(rapid.IntRange(1, 5).Draw(t, "intervalMS")) * time.Millisecond
 		rate2 := rapid.SampledFrom([]int{0, 0, 100_000, 2_000_000, 100_000_000}).Draw(t, "setRate")
+		// further changes back and forth between the two rates while a backlog waits (each SetRate call is a rate change event)
+		flips := 0
+		if rate2 > 0 {
+			flips = rapid.IntRange(0, 6).Draw(t, "rateFlips")
+		}
 		nStreams := rapid.IntRange(1, 3).Draw(t, "streams")
 		nWriters := rapid.IntRange(1, 4).Draw(t, "writers")
 		minBurst := burstOf(rate, interval)
@@ -184,12 +189,21 @@ func TestPacingInterceptor(t *testing.T) {
 						mu.Lock()
 						setRateBefore = time.Now()
 						f.SetRate("pc", rate2)
+						for fl := 0; fl < flips; fl++ { // the bound below uses max(rate, rate2) from here on
+							time.Sleep(interval)
+							if fl%2 == 0 {
+								f.SetRate("pc", rate)
+							} else {
+								f.SetRate("pc", rate2)
+							}
+						}
 						setRateAfter = time.Now()
 						mu.Unlock()
 					}
 					hdr := p.hdr.Clone()
 					pay := append([]byte(nil), p.payload...)
 					_, err := writers[p.stream].Write(&hdr, pay, nil)
+					scribble(&hdr, pay) // the caller owns these again: what was accepted must not change
 					acceptedOK[w][k] = err == nil
 					if err != nil {
 						mu.Lock()
@@ -235,7 +249,12 @@ func TestPacingInterceptor(t *testing.T) {
 				}
 				mu.Unlock()
 				if !from.IsZero() && c.At.After(from) {
-					allowed = float64(rate)*from.Sub(tCreate).Seconds() + float64(rate2)*c.At.Sub(from).Seconds()
+					after := float64(rate2)
+					if flips > 0 {
+						after = float64(max(rate, rate2)) // the rate flipped between the two for a while: bound by the larger one
+						from = setRateBefore
+					}
+					allowed = float64(rate)*from.Sub(tCreate).Seconds() + after*c.At.Sub(from).Seconds()
 					maxBurst = max(maxBurst, burstOf(rate2, interval))
 				}
 			}
@@ -257,6 +276,23 @@ func TestPacingInterceptor(t *testing.T) {
 			return map[string]any{"rate": rate, "interval_ms": interval.Milliseconds(), "set_rate": rate2, "streams": nStreams, "writers": nWriters, "packets": total, "queued_when_writers_finished": queuedAtOnce}
 		})
 	})
+}
+
+// scribble overwrites everything the caller handed in, in place.
+func scribble(h *rtp.Header, payload []byte) {
+	for i := range payload {
+		payload[i] = 0xEE
+	}
+	for i := range h.CSRC {
+		h.CSRC[i] = 0xDEADBEEF
+	}
+	for _, id := range h.GetExtensionIDs() {
+		ext := h.GetExtension(id)
+		for i := range ext {
+			ext[i] = 0xEE
+		}
+	}
+	h.Timestamp, h.SequenceNumber, h.Marker = 0xEEEEEEEE, 0xEEEE, !h.Marker
 }
 
 func sortByTime(a []kit.SentRTP) {
@@ -322,7 +358,9 @@ func TestGCCPacers(t *testing.T) {
 						p.SetTargetBitrate(rate * 2)
 					}
 					hdr := pl.hdr.Clone()
-					_, err := p.Write(&hdr, append([]byte(nil), pl.payload...), nil)
+					pay := append([]byte(nil), pl.payload...)
+					_, err := p.Write(&hdr, pay, nil)
+					scribble(&hdr, pay)
 					acceptedOK[w][k] = err == nil
 				}
 			}(w)
